@@ -148,7 +148,7 @@ def step (fn : Fn Float) (regs : Array Val) (j : Json) : Except String Val := do
   | "natural" => let e := (← getMsg regs j "a").natural; pure (.pair e.1 e.2)
   | "valid" => pure (.bool ((← getMsg regs j "a").base.isValid fn))
   | "mean" => pure (.num ((← getMsg regs j "a").mean fn))
-  | "variance" => pure (.num ((← getMsg regs j "a").base.variance fn))
+  | "variance" => pure (.num ((← getMsg regs j "a").variance fn))
   | "logpdf" => pure (.num ((← getMsg regs j "a").logpdf fn (← getFloat j "x")))
   | "factor" => pure (.num ((← getMsg regs j "a").factor fn (← getFloat j "x")))
   | "cdf" => pure (.num ((← getMsg regs j "a").cdf fn (← getFloat j "x")))
